@@ -34,10 +34,12 @@ const (
 	OpSuppress
 	// SeqOf(kids...).HandleResult(combinator.ReturnSingle()): a one-element match returns the element itself
 	OpSeqRetSingle
+	// parser.End(): matches (zero-width) exactly at the end of the input
+	OpEnd
 )
 
 var opNames = map[Op]string{OpSeqOf: "Seq", OpSeqTry: "SeqTry", OpSeqFirstOrAll: "SeqFOA", OpAny: "Any", OpChoice: "Choice",
-	OpRTrim: "RTrim", OpLTrim: "LTrim", OpSingle: "Single", OpSuppress: "SuppressError", OpSeqRetSingle: "SeqReturnSingle", OpOpt: "Opt", OpMany: "Many", OpMany1: "Many1", OpSepBy: "SepBy", OpSepBy1: "SepBy1"}
+	OpRTrim: "RTrim", OpLTrim: "LTrim", OpSingle: "Single", OpSuppress: "SuppressError", OpSeqRetSingle: "SeqReturnSingle", OpEnd: "End", OpOpt: "Opt", OpMany: "Many", OpMany1: "Many1", OpSepBy: "SepBy", OpSepBy1: "SepBy1"}
 
 // Expr is a grammar expression. ID is unique within a grammar.
 type Expr struct {
@@ -93,6 +95,8 @@ func (e *Expr) String() string {
 		return "ε"
 	case OpNT:
 		return fmt.Sprintf("N%d", e.NT)
+	case OpEnd:
+		return "End"
 	case OpRTrim, OpLTrim:
 		return fmt.Sprintf("%s(%s,ws%d)", opNames[e.Op], e.Kids[0], e.C)
 	}
@@ -208,7 +212,7 @@ func exprNullable(e *Expr, nl []bool) bool {
 	switch e.Op {
 	case OpRune:
 		return false
-	case OpEmpty, OpOpt, OpMany, OpSepBy:
+	case OpEmpty, OpOpt, OpMany, OpSepBy, OpEnd:
 		return true
 	case OpRTrim, OpLTrim, OpSingle, OpSuppress:
 		return exprNullable(e.Kids[0], nl)
